@@ -14,6 +14,7 @@ namespace drvsim {
 
 // The script driving the solver stub for the current run (set by the harness).
 extern sim::Json g_script;
+extern int g_dual_mode;   // value class of the dual tags (see SimBackend::ConTag); set from script.dual_mode before every run
 // Model/call record of the current run (owned by the harness, shared with ModelAPI).
 extern StubModel g_stub;
 
@@ -90,7 +91,10 @@ class SimBackend : public mp::FlatBackend<mp::MIPBackend<SimBackend>>, public Si
 
   // tagging scheme (shared with the oracles)
   static double VarTag(int k) { return 10000.0 + k + 0.5; }
-  static double ConTag(int group, int idx) { return 20000.0 + 1000.0 * group + idx + 0.25; }
+  // The dual value the solver party reports for row idx of a constraint group.  The scenario chooses the value class
+  // (script.dual_mode: 0 large positive, 1 negative, 2 small positive - below every primal tag -, 3 zero on odd rows and
+  // negative otherwise) so that a rule like "largest non-zero wins" cannot hide a value that arrives from the wrong slot.
+  static double ConTag(int group, int idx);
   static int StatusTag(int salt, int k) { return 1 + ((k * 7 + salt) % 6); }  // BasicStatus 1..6
   static int IISTag(int salt, int k) { return (k * 5 + salt) % 8; }           // IISStatus 0..7
 
